@@ -25,6 +25,15 @@ _GW = ["T-engine", "T-smt", "T-int", "T-str", "T-hex", "T-vol", "T-aw", "T-dict"
 PER_PROP = {
     "C01": _GW, "C04": _GW, "C05": _GW + ["T-time"], "C07": _GW, "C08": _GW, "C10": _GW, "C14": _GW + ["T-json", "T-pickle", "T-fs"],
     "C02": ["T-engine", "T-smt", "T-int", "T-str", "T-spec"],
+    "C11": ["T-engine", "T-smt", "T-json", "T-pickle", "T-aw", "T-vol"],
+    "C17": ["T-engine", "T-smt", "T-str", "T-dict", "T-schema"],
+    "C12": ["T-engine", "T-smt", "T-fs", "T-json", "T-pickle"],
+    "C13": ["T-engine", "T-smt", "T-fs", "T-json", "T-pickle", "T-file"],
+    "C15": ["T-engine", "T-smt", "T-fs", "T-dict", "T-serial"],
+    "C16": ["T-engine", "T-smt", "T-dict", "T-serial"],
+    "C18": ["T-engine", "T-smt", "T-aw", "T-spec", "T-dict"],
+    "C19": ["T-engine", "T-smt", "T-serial", "T-dict", "T-str"],
+    "C20": ["T-engine", "T-smt", "T-serial", "T-time", "T-dict"],
     "C09": ["T-engine", "T-smt", "T-int", "T-hex", "T-crc", "T-ihex", "T-spec"],
     "C03": ["T-engine", "T-smt", "T-int", "T-vol", "T-aw", "T-str", "T-hex", "T-spec"],
     "C06": _GW + ["T-json", "T-pickle"],
